@@ -76,6 +76,9 @@ def imaging_case(aa, rng, kshapes=(1, 3, 5), kernel_kind=None, data_kind=None, s
     # noise level spans raw-count to normalised units: absolute thresholds on noise-weighted terms become visible
     noise_scale = float(np.exp(rng.uniform(np.log(noise_scale_range[0]), np.log(noise_scale_range[1])))) if rng.random() < 0.4 else 1.0
     noise = rng.uniform(0.3, 3.0, size=(H, W)) * noise_scale
+    if rng.random() < 0.12:
+        # background-limited data: the noise map is uniform to a few parts per million (but not exactly)
+        noise = float(rng.uniform(0.3, 3.0)) * (1.0 + 8e-6 * rng.random((H, W))) * noise_scale
     d = d * (noise_scale if rng.random() < 0.7 else 1.0)
     data = aa.Array2D(values=d.copy(), mask=mask)
     noise_map = aa.Array2D(values=noise.copy(), mask=mask)
